@@ -831,8 +831,10 @@ class Aspire:
             config_dict["xp"] = resolve_xp(config_dict["xp"])
         config_dict["log_likelihood"] = log_likelihood
         config_dict["log_prior"] = log_prior
+        # Flow options are passed to the constructor as keyword arguments
+        flow_kwargs = config_dict.pop("flow_kwargs", None) or {}
 
-        aspire = Aspire(**config_dict)
+        aspire = Aspire(**config_dict, **flow_kwargs)
 
         with AspireFile(file_path, "r") as h5_file:
             if flow_path in h5_file:
